@@ -13,6 +13,7 @@ PROP = {
              "byte-level mutations of valid documents. A case is non-trivial when the document contains the last segment of one of its "
              "exclusions at two or more different cursors; distinct = distinct canonical JSON of (document text(s), exclusion list)"),
     "assumptions": [
+        "bytes unit (now in the quick tier too): one document in eight repeats a member name inside an object, the repeated member carrying a scalar of its own (RFC 8259 says names SHOULD be unique; the parser accepts repetitions); half of these go in without exclusions and without byte mutations: the input is accepted, so every leaf of the output must be a hash",
         "the gateway's log level (LOG_LEVEL: off in three cases of eight, else error / info / debug / trace; what is logged is thrown away, what a log statement does to build its arguments happens) is a generated part of every case of TestHARCollectorBodies and TestHARGeneratorPluginBodies: no answer may depend on it; a failing case reports its level",
         "unit TestHARGeneratorPluginOverlapped: two transactions of two diagnoses with different obfuscation settings overlap on the one plugin instance - the injected hasher stops transaction A at its 1st-4th hash computation (headers, URL and query come before the bodies), B runs completely, A goes on; each output is judged against its own exclusion lists",
         "keys of generated documents contain no '.', '[' or ']' (the cursor notation cannot express them) and are unique per object",
@@ -32,7 +33,7 @@ PROP = {
         {"pkg": "c16", "test": "TestHARGeneratorPluginBodies", "quick": 8000, "thorough": 60000, "shards": 16},
         {"pkg": "c16", "test": "TestHARGeneratorPluginOverlapped", "quick": 3000, "thorough": 60000, "shards": 8},
         {"pkg": "c16", "test": "TestSmallSpaceExhaustive", "kind": "plain"},
-        {"pkg": "c16", "test": "TestObfuscateJSONBytes", "thorough": 300000, "shards": 16, "tiers": ["thorough"]},
+        {"pkg": "c16", "test": "TestObfuscateJSONBytes", "quick": 8000, "thorough": 300000, "shards": 16},
         {"pkg": "c16", "test": "FuzzObfuscateJSON", "kind": "fuzz", "thorough": 60, "tiers": ["thorough"]},
         {"pkg": "c16", "test": "TestWitnessSuffixExclusion", "kind": "plain"},
         {"pkg": "c16", "test": "TestWitnessWholeBodyExclusion", "kind": "plain"},
